@@ -162,6 +162,10 @@ func (q *MultiOpQueryer) queryBatch(inputs []*requests.Request) ([]map[string]in
 		if len(resp.Errors) != 0 {
 			return nil, resp.Errors
 		}
+		// an answer without errors must carry data
+		if resp.Data == nil {
+			return nil, fmt.Errorf("response %d from %s carries neither data nor errors", i, q.url)
+		}
 		results[toFetchIndexes[i]] = resp.Data
 	}
 
